@@ -11,11 +11,15 @@ func TestMain(m *testing.M) { vkit.Main(m) }
 func TestProp_Index(t *testing.T)      { PartIndex.Run(t) }
 func TestProp_Controlled(t *testing.T) { PartCtl.Run(t) }
 func TestProp_Stress(t *testing.T)     { PartStress.Run(t) }
+func TestProp_Long(t *testing.T)       { PartLong.Run(t) }
 func TestRace_Stress(t *testing.T)     { PartStressRace.Run(t) }
+func TestRace_Long(t *testing.T)       { PartLongRace.Run(t) }
 
 func TestReplay(t *testing.T) {
 	PartIndex.Replay(t, 1)
 	PartCtl.Replay(t, 1)
 	PartStress.Replay(t, 50)
 	PartStressRace.Replay(t, 50)
+	PartLong.Replay(t, 3)
+	PartLongRace.Replay(t, 3)
 }
